@@ -1,11 +1,11 @@
 #!/bin/bash
 # runs every quick (or $1) check sequentially; prints exit code and wall time
 tier=${1:-quick}
-cd /verif
+cd "$(dirname "$0")/.."
 for i in 01 02 03 04 05 06 07 08 09 10 11 12 13 14 15 16 17 18 19 20; do
   s=$(date +%s)
-  /venv/bin/python -m mc.run C$i --tier $tier > /tmp/runall_C$i.log 2>&1
+  /venv/bin/python -m mc.run C$i --tier $tier > /tmp/runall_${tier}_C$i.log 2>&1
   rc=$?
   e=$(date +%s)
-  echo "C$i rc=$rc wall=$((e-s))s $(grep -c '^VIOLATION' /tmp/runall_C$i.log) violations, $(grep -c '^KNOWN' /tmp/runall_C$i.log) known; $(tail -1 /tmp/runall_C$i.log | cut -c1-150)"
+  echo "C$i rc=$rc wall=$((e-s))s $(grep -c '^VIOLATION' /tmp/runall_${tier}_C$i.log) violations, $(grep -c '^KNOWN' /tmp/runall_${tier}_C$i.log) known; $(tail -1 /tmp/runall_${tier}_C$i.log | cut -c1-150)"
 done
